@@ -33,8 +33,9 @@ def _vname(v):
 class WalkIter:
     """a port of walkdir 2.5's IntoIter::next / handle_entry / get_deferred_dir / skip_current_dir onto the static TREE"""
 
-    def __init__(self, min_d, max_d, contents_first, follow_links):
+    def __init__(self, min_d, max_d, contents_first, follow_links, follow_root_links=False, root_is_link=False):
         self.min, self.max, self.cf, self.fl = min_d, max_d, contents_first, follow_links
+        self.frl, self.root_is_link = follow_root_links, root_is_link
         self.start, self.stack, self.deferred, self.depth = True, [], [], 0
 
     def skippable(self):
@@ -54,6 +55,14 @@ class WalkIter:
         if self.fl and k == "loop":
             return ("err", None, p, d)                # Error::from_loop: no io::Error inside
         is_dir = k in ("dir", "unreadable") or (k == "dirlink" and self.fl)      # a followed link to a directory is descended (its target is empty here)
+        if i == 0 and self.root_is_link and not self.fl:
+            # the starting point is a symbolic link to the directory: without follow_links the DirEntry stays a symlink
+            # (is_normal_dir = false); with follow_root_links walkdir still descends into it - but does not defer it
+            if self.frl:
+                self.push(i)
+            if self.skippable():
+                return None
+            return ("ok", i)
         if is_dir:
             self.push(i)
         if is_dir and self.cf:
@@ -130,6 +139,7 @@ def explore(funcs, index, enums, text):
     res = {"kind": "walk", "paths": 0, "checks": 0, "violations": [], "unsupported": {}, "samples": []}
     mind, maxd, follow = z3.Int("mindepth"), z3.Int("maxdepth"), z3.Int("follow")
     depth_first = z3.Bool("depth_first")
+    root_link = z3.Bool("starting_point_is_a_link")
     state = {}
 
     def wd_new(m, args):
@@ -144,7 +154,8 @@ def explore(funcs, index, enums, text):
 
     def wd_into_iter(m, args):
         w = state["wd"]
-        state["it"] = WalkIter(w.get("min_depth", 0), w.get("max_depth", 10 ** 9), bool(w.get("contents_first", False)), bool(w.get("follow_links", False)))
+        state["it"] = WalkIter(w.get("min_depth", 0), w.get("max_depth", 10 ** 9), bool(w.get("contents_first", False)), bool(w.get("follow_links", False)),
+                               bool(w.get("follow_root_links", False)), state.get("root_link", False))
         return Struct("WalkIter", [])
 
     def wd_skip(m, args):
@@ -240,6 +251,8 @@ def explore(funcs, index, enums, text):
             mx = m.decide_int(maxd, [0, 1, 2, 3]); mx = 4 if mx is None else mx
             fo = m.decide_int(follow, [0, 1]); fo = 2 if fo is None else fo
             df = m.decide(depth_first)
+            rl = m.decide(root_link)
+            state["root_link"] = rl
             cfg = [m.call("<Config as Default>::default", [])]
             r = m.call("build_top_level_matcher", [SliceRef([RStr("-print")]), Ptr(cfg, 0)])
             c = cfg[0]
@@ -259,7 +272,10 @@ def explore(funcs, index, enums, text):
         res["paths"] += 1
         res["checks"] += 1
         want, unread = reference(mn, mx, df, fo == 2)
-        conf = "-mindepth %d -maxdepth %d%s %s" % (mn, mx, " -depth" if df else "", ["-P", "-H", "-L"][fo])
+        if rl and fo == 0:
+            # -P: a starting point that is a link is reported, never descended
+            want, unread = (["r"] if mn <= 0 <= mx else []), False
+        conf = "-mindepth %d -maxdepth %d%s %s%s" % (mn, mx, " -depth" if df else "", ["-P", "-H", "-L"][fo], " (the starting point is a symbolic link to the directory)" if rl else "")
         w = state["wd"]
         asked = (w.get("min_depth"), w.get("max_depth"), bool(w.get("contents_first")), bool(w.get("follow_links")), bool(w.get("follow_root_links")))
         if mn <= mx and asked != (mn, mx, df, fo == 2, fo != 0):
@@ -270,7 +286,8 @@ def explore(funcs, index, enums, text):
             res["violations"].append({"what": "%s: evaluated %r, expected %r%s%s" % (conf, state["visited"], want, (" (outside the depth range: %r)" % extra) if extra else "",
                                                                                        (" (missing: %r)" % missing) if missing else ""), "config": conf,
                                       "class": "a dangling link shallower than -mindepth is evaluated under -L" if (extra and not missing and fo == 2 and all(
-                                          dict((q, k) for q, _d, k in TREE)[p] == "dangling" for p in extra)) else "other"})
+                                          dict((q, k) for q, _d, k in TREE)[p] == "dangling" for p in extra)) else
+                                      "-H with a starting point that is a link to a directory, under -depth" if (rl and fo == 1 and df) else "other"})
         if (ret != 0) != unread:
             res["violations"].append({"what": "%s: status %r, an unreadable directory was%s to be reported" % (conf, ret, "" if unread else " not"), "config": conf})
         if len(res["samples"]) < 3 and mn == 1:
